@@ -37,6 +37,9 @@ var (
 	zzLastSnapName *SnapshotInput
 )
 
+// harness-chosen request bodies
+var zzOverride func(obj interface{}) bool
+
 func zzGetApiContext(r *http.Request) *api.ApiContext { return &api.ApiContext{UrlBuilder: zzURLs{}} }
 
 func zzAddrPick(tag string) string {
@@ -49,6 +52,9 @@ func zzRead(a *api.ApiContext, obj interface{}) error {
 		return errors.New("zz: invalid character in request body")
 	case 2:
 		return io.EOF
+	}
+	if zzOverride != nil && zzOverride(obj) {
+		return nil
 	}
 	switch in := obj.(type) {
 	case *SnapshotInput:
